@@ -562,6 +562,35 @@ fn check(c: &Case, obs: &mut Obs) -> Verdict {
             obs.class("translate:zero");
         }
     }
+    for sub in e.subtrees() {
+        if let Expr::Intersect(l, r) = sub {
+            if matches!(**l, Expr::Paren(_) | Expr::Func { .. }) {
+                obs.class("intersect:after-close-paren");
+            }
+            if matches!(**r, Expr::Paren(_)) {
+                obs.class("intersect:before-open-paren");
+            }
+            if matches!(**r, Expr::Func { .. }) {
+                obs.class("intersect:before-function");
+            }
+        }
+    }
+    if c.path == Path::Translate {
+        // references that sit exactly on the last row / column and do not move on that axis
+        let on_edge = e.refs().iter().any(|r| {
+            (dr == 0 && r.area.max_row() == Some(MAX_ROW)) || (dc == 0 && r.area.max_col() == Some(MAX_COL))
+        });
+        if on_edge {
+            obs.class("translate:edge-ref-zero-delta");
+        }
+        let lands_on_edge = e.refs().iter().any(|r| match translate_area(&r.area, dc, dr) {
+            Some(a) => (dr != 0 && a.max_row() == Some(MAX_ROW)) || (dc != 0 && a.max_col() == Some(MAX_COL)),
+            None => false,
+        });
+        if lands_on_edge {
+            obs.class("translate:lands-on-last-row-or-column");
+        }
+    }
     obs.nontrivial(is_nontrivial(&e));
     match attempt(&e, &c.blanks, c.lead, c.trail, &p) {
         Outcome::Pass => Verdict::Pass,
